@@ -25,8 +25,8 @@
 //! Oracle (reference = reachability on the harness's own parent map): for EVERY committed command
 //! x: `get_location(address(x))` is `Some(l)` and the segment at `l` holds x at `l`; for EVERY
 //! ordered pair (x,y): `is_ancestor(loc x, loc y)` ⇔ x is a proper ancestor of y;
-//! `get_location_from(loc y, address(x))` finds x whenever x is an ancestor-or-self of y and
-//! whatever it returns holds x; absent addresses (right id / wrong max cut ±1, unknown id / right
+//! `get_location_from(loc y, address(x))` finds x (at its location) exactly when x is an
+//! ancestor-or-self of y; absent addresses (right id / wrong max cut ±1, unknown id / right
 //! max cut, flushed-but-uncommitted command) are not found.
 
 use std::{
@@ -233,6 +233,7 @@ fn check_graph<SP: StorageProvider>(sp: SP, bufs: &mut RuntimeBuffers<SP::Segmen
                     }
                     if !(want || x == y) {
                         st.from_found_non_ancestor.fetch_add(1, Relaxed);
+                        return Err(format!("[{tag}] get_location_from(command {y} at {}, address of command {x}) = Some({l}) although command {x} is not an ancestor-or-self of command {y}", loc[y]));
                     }
                 }
                 None => {
@@ -444,6 +445,9 @@ fn chain_family(max_n: usize, quick: bool) -> Vec<Graph> {
                 }
             }
             // two diamonds (sequential, overlapping or nested) at the depth classes
+            if quick && !(n % 3 == 0 || n >= 20) {
+                continue;
+            }
             let dc = depth_classes(n);
             for &b1 in &dc {
                 for &j1 in &dc {
@@ -606,7 +610,7 @@ pub fn run(args: &Args) {
     rep.count("get_location_from_found_command_that_is_no_ancestor_of_start", stats.from_found_non_ancestor.load(Relaxed));
     rep.set("longest_skip_list", stats.max_skip_len.load(Relaxed));
     rep.assume("graphs are delivered in creation order through ClientState::add_commands/commit with a no-op policy; segment shape is varied through the commit points only");
-    rep.assume("get_location_from is only required to find ancestors-or-self of the start and to return a location holding the command (it may also find a later command of the start segment; counted, not judged)");
+    rep.assume("get_location_from(start, address) is read as: Some(location holding the command) exactly when the command is an ancestor-or-self of the command at `start`");
     rep.finish()
 }
 
